@@ -551,7 +551,13 @@ func (b *Branch) Trim(height int) error {
 	if offset >= len(b.headers) {
 		return errors.New("Height Above Tip") // above tip
 	}
+	if offset < 1 {
+		return errors.New("Height Pruned") // would not leave any headers in the branch
+	}
 
+	for _, data := range b.headers[offset:] {
+		delete(b.heightsMap, data.Hash)
+	}
 	b.headers = b.headers[:offset]
 	return nil
 }
